@@ -21,7 +21,7 @@ const FRAME_MUTATIONS: &[&str] = &[
     "unknown_type", "parse_no_terminators", "parse_negative_param_count", "parse_huge_param_count", "bind_no_terminators",
     "bind_negative_counts", "bind_param_len_beyond_frame", "bind_huge_param_count", "describe_empty", "describe_no_terminator",
     "close_empty", "close_no_terminator", "query_no_terminator", "query_embedded_nul", "query_empty_body", "execute_empty",
-    "execute_no_terminator", "execute_without_bind", "bind_without_parse", "sync_only", "copydata_outside_copy", "copydone_outside_copy",
+    "execute_no_terminator", "execute_without_bind", "bind_without_parse", "sync_only", "copydata_outside_copy", "copydone_outside_copy", "copyfail_outside_copy",
     "password_message", "flush_only", "function_call", "random_garbage", "terminate_with_body", "many_syncs", "custom_command_huge_number",
     "query_answered_with_non_utf8_error", "parse_answered_with_non_utf8_error",
 ];
@@ -118,6 +118,7 @@ fn hostile_frames(rng: &mut Rng, m: &str) -> Vec<u8> {
         "sync_only" => proto::sync(),
         "copydata_outside_copy" => proto::copy_data(b"1\t2\n"),
         "copydone_outside_copy" => proto::copy_done(),
+        "copyfail_outside_copy" => proto::copy_fail("stray"),
         "password_message" => proto::password_message(b"md5abcdef\0"),
         "flush_only" => proto::flush(),
         "function_call" => Msg::new(b'F', vec![0, 0, 0, 1, 0, 0, 0, 0, 0, 0]).encode(),
@@ -378,7 +379,7 @@ pub fn run(tier: &str) -> i32 {
         "C11",
         tier,
         "exploration",
-        "case = protocol state {pre-startup, mid-auth, idle, in transaction, mid-batch, in COPY, admin console} x mutation (14 startup mutations, 36 frame/body/order mutations incl. lengths <4, negative, beyond/below body, 64 MiB declared, unknown types, missing terminators, negative/oversized counts, parameter lengths beyond the frame, embedded NULs, messages in invalid order); after each case: process liveness, a canary transaction on the shared pool_size=1 pool (own correct reply, clean inherited session), a canary on a second pool during the attack, capacity probe and admin console every 10 cases; distinct = distinct (state, mutation) pairs",
+        "case = protocol state {pre-startup, mid-auth, idle, in transaction, mid-batch, in COPY, admin console} x mutation (14 startup mutations, 39 frame/body/order mutations incl. lengths <4, negative, beyond/below body, 64 MiB declared, unknown types, missing terminators, negative/oversized counts, parameter lengths beyond the frame, embedded NULs, messages in invalid order); after each case: process liveness, a canary transaction on the shared pool_size=1 pool (own correct reply, clean inherited session), a canary on a second pool during the attack, capacity probe and admin console every 10 cases; distinct = distinct (state, mutation) pairs",
     );
     rep.assume("declared lengths are capped at 64 MiB in verdict-bearing cases; memory exhaustion by larger declared lengths is measured (RSS) but not judged");
     rep.assume("panics confined to the sender's task are allowed by the property; they are catalogued, not judged");
